@@ -22,6 +22,12 @@ func isLimitErr(err error) bool { return errors.Is(err, regexp2.ErrBacktrackingS
 
 // c13Sweep runs one (pattern, input) under every limit in limits (ascending; -1 = unlimited run is the reference).
 func c13Sweep(src string, copts []regexp2.CompileOption, inputs [][]rune, limits []int, c *Ctx) (n, nt int64, bad *Violation) {
+	return c13SweepOpt(src, copts, inputs, limits, c, false)
+}
+
+// freshEach compiles a new Regexp for every (limit, input) pair, so that every run starts from the initial stack
+// allocation (a pooled runner keeps the stack an earlier input has grown, which hides the growth steps of later inputs).
+func c13SweepOpt(src string, copts []regexp2.CompileOption, inputs [][]rune, limits []int, c *Ctx, freshEach bool) (n, nt int64, bad *Violation) {
 	ref, err := regexp2.Compile(src, append(copts, regexp2.OptionMaxBacktrackingStackSize(-1))...)
 	if err != nil {
 		return 0, 0, nil
@@ -70,6 +76,10 @@ func c13Sweep(src string, copts []regexp2.CompileOption, inputs [][]rune, limits
 				continue
 			}
 			n++
+			if freshEach {
+				re, _ = regexp2.Compile(src, append(copts, regexp2.OptionMaxBacktrackingStackSize(L))...)
+				fresh = nil
+			}
 			var got mres
 			var st regexp2.VerifStackStats
 			var gerr error
@@ -217,7 +227,31 @@ func runC13(c *Ctx) {
 			limits = append(limits, L)
 		}
 		limits = append(limits, 8*t0-1, 8*t0, 8*t0+1, 8*t0+2, 16*t0+1, 100000)
-		n, nt, bad := c13Sweep(p.Src, nil, ins, limits, c)
+		freshLimits := limits
+		if !thorough {
+			// quick: fresh Regexps only in windows around the doubling points of the stack (where the limit can cut a
+			// growth step short) and at the small limits; the shared-Regexp pass below still sweeps every L
+			freshLimits = nil
+			for _, L := range limits {
+				near := L <= 16
+				for _, b := range []int{t0, 2 * t0, 4 * t0, 8 * t0, 16 * t0} {
+					if L >= b-8 && L <= b+24 {
+						near = true
+					}
+				}
+				if near || L == 100000 {
+					freshLimits = append(freshLimits, L)
+				}
+			}
+		}
+		n, nt, bad := c13SweepOpt(p.Src, nil, ins, freshLimits, c, true)
+		if bad == nil {
+			// second pass with one Regexp per limit: the pooled runner carries its grown stack from input to input
+			var n2, nt2 int64
+			n2, nt2, bad = c13SweepOpt(p.Src, nil, ins, limits, c, false)
+			n += n2
+			nt += nt2
+		}
 		c.mu.Lock()
 		sp++
 		se += n
@@ -245,7 +279,7 @@ func replayC13(v Violation) (bool, string) {
 	in, L := replayInput(v)
 	copts := optSet(v.Options).compileOptions()
 	c := newCtx("C13", "quick")
-	_, _, bad := c13Sweep(v.Pattern, copts, [][]rune{in}, []int{L, L + 1, 100000}, c)
+	_, _, bad := c13SweepOpt(v.Pattern, copts, [][]rune{in}, []int{L, L + 1, 100000}, c, true)
 	if bad != nil {
 		return true, bad.Leg + ": " + bad.Detail
 	}
